@@ -104,7 +104,8 @@ PayloadOK(m) ==
     /\ p.scale_count = (IF p.gs = 0 THEN p.shape[1] ELSE p.grouped_numel \div p.gs)
     /\ (p.bits < 8 => p.zp_count = p.scale_count)
     /\ p.dtype = m.dtype /\ p.scale_dtype = m.dtype
-Untouched(a, b) == a.bias_digest = b.bias_digest /\ SameS(a.insc, b.insc) /\ SameS(a.outsc, b.outsc) /\ a.aq = b.aq /\ a.wq = b.wq /\ a.cls = b.cls
+Untouched(a, b) == /\ a.bias_digest = b.bias_digest /\ SameS(a.insc, b.insc) /\ SameS(a.outsc, b.outsc) /\ a.aq = b.aq /\ a.wq = b.wq /\ a.cls = b.cls
+                   /\ (~a.q \/ a.wq = "none" \/ a.frozen) => a.weight_digest = b.weight_digest     \* weights that freeze() has no business with
 FreezeOK(e) ==
   /\ e.outcome = "ok"
   /\ SameOutputs(e.out_before, e.out_after)                                  \* bit-identical outputs
